@@ -138,3 +138,14 @@ def run(cx):
     if fn is not None:
         P = Prov(fn, cx.F); cn = Canon(fn, P)
         zero_check(cx, fn, P, cn, 'encrypt', 'kdf([X(%s), Y(%s)], len($msg))' % (S, S))
+    # sibling: decrypt applies the same test to its own KDF output (a test on the plaintext would reject all-zero messages)
+    fd = cx.fn('<impl key::Sm2PrivateKey>::decrypt')
+    if fd is not None:
+        from ..prov import norm as _norm
+        P = Prov(fd, cx.F); cn = Canon(fd, P)
+        kd = FR.calls_of(fd, 'util::kdf')
+        if len(kd) == 1:
+            t = cn.c(_norm(P.local(fd.blocks[kd[0]]['term']['dest']['l'], fd.blocks[kd[0]]['term']['target'], 0)))
+            zero_check(cx, fd, P, cn, 'decrypt', t)
+        else:
+            cx.lost('F-ZERO-CHECK', 'decrypt', 'expected one kdf call in decrypt')
